@@ -3,6 +3,7 @@ import Driver.GetData
 import Driver.Dns
 import Driver.Uptime
 import Driver.Rs
+import Driver.Mqtt
 
 def main (args : List String) : IO UInt32 := do
   match args with
@@ -11,4 +12,5 @@ def main (args : List String) : IO UInt32 := do
   | ["dns"] => Driver.DnsDrv.main; return 0
   | ["uptime"] => Driver.UptimeDrv.main; return 0
   | ["rs"] => Driver.RsDrv.main; return 0
+  | ["mqtt"] => Driver.MqttDrv.main; return 0
   | _ => IO.eprintln "usage: svdrv <subsystem>"; return 2
